@@ -11,7 +11,17 @@ ROOT="$(cd "$(dirname "${BASH_SOURCE[0]}")/.." && pwd)"
 export VERIF_ROOT
 ID="$1"
 SEED="${VERIF_SEED:-0}"
-RUNS="${VERIF_FUZZ_RUNS:-400000}"
+RUNS_DEFAULT="${VERIF_FUZZ_RUNS:-400000}"
+# fixed work per process, scaled down for parts whose cases are expensive (whole sender sessions)
+runs_for() {
+  if [ -n "${VERIF_FUZZ_RUNS:-}" ]; then echo "$VERIF_FUZZ_RUNS"; return; fi
+  case "$1" in
+    C06/*) echo 30000 ;;
+    C19/*) echo 100000 ;;
+    C02/*|C15/*|C11/*|C07/*) echo 150000 ;;
+    *) echo "$RUNS_DEFAULT" ;;
+  esac
+}
 JOBS="${VERIF_FUZZ_JOBS:-16}"
 VCHECK="$ROOT/harness/target/release/vcheck"
 TARGETS=$("$VCHECK" --fuzz-targets | grep "^$ID/" || true)
@@ -28,6 +38,7 @@ BIN="$ROOT/harness/fuzz/target/x86_64-unknown-linux-gnu/release/part_fuzz"
 rc=0
 for T in $TARGETS; do
   PART="${T#*/}"
+  RUNS=$(runs_for "$T")
   WORK="$ROOT/harness/fuzz/corpus-run/$ID-$PART-$$"
   rm -rf "$WORK"; mkdir -p "$WORK"
   t0=$(date +%s)
